@@ -70,7 +70,12 @@ func (s SCTP) SerializeTo(b gopacket.SerializeBuffer, opts gopacket.SerializeOpt
 		// Note:  MakeTable(Castagnoli) actually only creates the table once, then
 		// passes back a singleton on every other call, so this shouldn't cause
 		// excessive memory allocation.
+		// The checksum is computed with a zero checksum field.
+		bytes[8], bytes[9], bytes[10], bytes[11] = 0, 0, 0, 0
 		binary.LittleEndian.PutUint32(bytes[8:12], crc32.Checksum(b.Bytes(), crc32.MakeTable(crc32.Castagnoli)))
+	} else {
+		// The prepended bytes are not zeroed: write the checksum field as it is.
+		binary.BigEndian.PutUint32(bytes[8:12], s.Checksum)
 	}
 	return nil
 }
